@@ -12,6 +12,8 @@ import sys
 import time
 
 VERIF = os.path.dirname(os.path.dirname(os.path.abspath(__file__)))
+# development-time runs against scratch copies (seeded/run.sh) write their evidence elsewhere so that the committed evidence of the real tree is not overwritten
+EVIDENCE_DIR = os.environ.get("TTSA_EVIDENCE_DIR") or os.path.join(VERIF, "evidence")
 REPO = os.environ.get('TTSA_REPO', '/repo')
 PKG = 'scikit_tt'
 
@@ -264,7 +266,7 @@ class Run:
         new, listed = [], []
         for key, f in sorted(self.findings.items()):
             (listed if key in kn else new).append(f)
-        fdir = os.path.join(VERIF, 'evidence', 'findings')
+        fdir = os.path.join(EVIDENCE_DIR, 'findings')
         os.makedirs(fdir, exist_ok=True)
         for f in listed:
             print(f"KNOWN-FINDING: property={self.prop} {kn[f.key].get('what', f.message)}")
@@ -301,8 +303,8 @@ class Run:
             'wall_s': round(wall, 3),
             'violations': len(new),
         }
-        os.makedirs(os.path.join(VERIF, 'evidence'), exist_ok=True)
-        with open(os.path.join(VERIF, 'evidence', f'{self.prop}.json'), 'w') as fh:
+        os.makedirs(EVIDENCE_DIR, exist_ok=True)
+        with open(os.path.join(EVIDENCE_DIR, f'{self.prop}.json'), 'w') as fh:
             json.dump(ev, fh, indent=1, default=str)
         print(f"{self.prop} [{self.tier}] obligations={self.obligations} discharged={self.discharged} "
               f"distinct_nontrivial={len(self.nontrivial)} new_findings={len(new)} known={len(listed)} wall={wall:.2f}s")
@@ -316,6 +318,6 @@ def write_error_evidence(prop, tier, msg):
     ev = {'property_id': prop, 'tier': tier, 'seed': int(os.environ.get('VERIF_SEED', '0') or 0), 'level': 'other',
           'coverage': {'explanation': 'ANALYSIS-ERROR: ' + msg, 'evaluations': 0, 'distinct_nontrivial': 0, 'samples': [{'error': msg}]},
           'wall_s': 0.0, 'violations': 0}
-    os.makedirs(os.path.join(VERIF, 'evidence'), exist_ok=True)
-    with open(os.path.join(VERIF, 'evidence', f'{prop}.json'), 'w') as fh:
+    os.makedirs(EVIDENCE_DIR, exist_ok=True)
+    with open(os.path.join(EVIDENCE_DIR, f'{prop}.json'), 'w') as fh:
         json.dump(ev, fh, indent=1)
